@@ -8,7 +8,10 @@
 (*   del      number of bytes delivered: covered by the blocks returned    *)
 (*            (or skipped with a nil block) so far                         *)
 (*   done     TRUE once Parse has returned io.EOF                          *)
-(*   lasterr  error class of the most recent reader call ("" if none)      *)
+(*   lasterr  error class of the most recent reader call that has not been *)
+(*            returned to the caller yet ("" if none): an implementation   *)
+(*            may deliver the data first and report the error later, but   *)
+(*            it may report each reader error only once                    *)
 (*   c        configuration as the inner parser reports it (ParserSM)      *)
 (*                                                                         *)
 (* One action per call of WrappedParser.Parse (event "wparse", or          *)
@@ -78,9 +81,15 @@ WRules(ws, e) ==
                  <<"C08.err_class", e.err \in ReadErrs \/ (e.err = "full" /\ c.S >= c.B)>>,
                  <<"C16.err_documented", e.err \in ReadErrs \cup {"full"}>>,
                  <<"C08.err_after_delivery", e.err \in ReadErrs => ws.del = Len(src)>>,
-                 <<"C08.eof_when_done", e.err = "eof" => (ws.del = Len(src) /\ le = "eof")>>,
-                 <<"C08.err_is_readers", e.err \in ReadErrs => e.err = le>> })
+                 <<"C08.eof_when_done", e.err = "eof" => (ws.del = Len(src) /\ (le = "eof" \/ ws.done))>>,
+                 (* a reader error is reported when the reader gave it in this   *)
+                 (* call, or earlier and it has not been reported yet: a stale   *)
+                 (* error must not be repeated without asking the reader again   *)
+                 <<"C08.err_is_readers", e.err \in {"reader", "reader2"} => e.err = le>> })
     [] e.op = "wreset" -> {}
+    (* the consumer loop did not reach io.EOF although it made more calls    *)
+    (* than bytes + reader faults exist: the wrapper stopped making progress *)
+    [] e.op = "stalled" -> { <<"C08.completes", FALSE>> }
     [] e.op = "panic" -> { <<"C16.no_panic", FALSE>>, <<"C08.no_panic", FALSE>> }
     [] e.op = "timeout" -> { <<"C16.no_hang", FALSE>>, <<"C08.no_hang", FALSE>> }
     [] e.op = "livelock" -> { <<"C16.no_hang", FALSE>>, <<"C08.no_hang", FALSE>> }
@@ -93,7 +102,7 @@ WEff(ws, e) ==
       [ws EXCEPT !.src = @ \o Concat4(e.reads),
                  !.del = IF e.err = "" THEN @ + e.n ELSE @,
                  !.done = @ \/ e.err = "eof",
-                 !.lasterr = LastErr(ws, e.reads)]
+                 !.lasterr = LET le == LastErr(ws, e.reads) IN IF e.err = le THEN "" ELSE le]
     [] e.op = "wreset" -> WInit(ws.c)
     [] OTHER -> ws
 
